@@ -104,7 +104,11 @@ def build_world(cfg):
     nb = min(cfg["brackets"], len(levels) + 1)
     sign = 1.0 if cfg["mode"] == "min" else -1.0
     perms = {int(k): tuple(v) for k, v in cfg["perms"].items()}
-    table = table_from_perms(cfg["T"], max_t, perms, sign, zero_rank=cfg.get("zero_rank"))
+    table = None if cfg.get("curve") else table_from_perms(cfg["T"], max_t, perms, sign, zero_rank=cfg.get("zero_rank"))
+    if cfg.get("curve"):
+        from .c15 import curve_table
+        V, p1, p2, p3 = cfg["curve"]
+        table = [[sign * x for x in row] for row in curve_table(dict(T=cfg["T"], R=max_t, good=cfg["good"]), V, p1, p2, p3)]
     mra = "epochs" if cfg.get("use_mra") else None
     spec = dict(W=cfg["W"], T=cfg["T"], R=max_t, table=table, brackets=(nb if nb > 1 else 0) if not cfg.get("free_brackets") else 0,
                 max_resource_attr=mra, scratch=cfg.get("scratch", False), fail_budget=cfg.get("F", 0), id0=cfg.get("id0", 0))
@@ -128,12 +132,53 @@ def label(cfg):
 
 
 def task(cfg):
+    if cfg.get("subsets"):
+        return task_tables(cfg)
     cov, viols = explore(lambda: build_world(cfg), PROP, label(cfg), max_depth=cfg.get("D"),
                          max_states=cfg.get("max_states"), ctx=ctx_of(cfg))
     return cov, viols
 
 
-def configs(tier, seed):
+def task_tables(cfg):
+    """every table of a family of criss-crossing learning curves on the one history a single worker produces (levels 1, 3, 9):
+    many promotions, PASHA's cap rising through all its levels; the reference is stepped in lock-step"""
+    from .c15 import tables_of
+    from ..core import Coverage
+    cov, viols = Coverage(), []
+    for V, p1, p2, p3 in tables_of(cfg):
+        c = dict(cfg, curve=[list(V), list(p1), list(p2), list(p3)])
+        c.pop("subsets")
+        w = build_world(c)
+        hist = []
+        for _ in range(250):
+            en = w.enabled()
+            if not en or w.dead:
+                break
+            non_s = [e for e in en if e[0] != "S"]
+            ev = non_s[0] if non_s else en[0]
+            hist.append(ev)
+            obs, vs = w.step(ev)
+            cov.add("transitions")
+            if obs[0] == "EXC":
+                vs = vs + [(f"exc:{obs[1]}@{obs[2]}", obs[3])]
+            if obs[0] == "suggest" and obs[1] == "over_T":
+                break
+            for k, what in vs:
+                key = ctx_of(c) + "/tables|" + k
+                if not any(v.key == key for v in viols):
+                    viols.append(Violation(PROP, key, what + f" [table V={V} orders {p1},{p2},{p3}, single-worker history of {len(hist)} events]",
+                                           {"cfg": label(c), "history": [list(e) for e in hist]}))
+            if vs:
+                break
+        cov.add("states", len(hist))
+        cov.add("evaluations")
+        cov.outcome("tables:promotions=%d" % sum(1 for o in w.trace if o[0] == "suggest" and o[1] == "resume"))
+        cov.outcome("tables:pasha-cap=%s" % getattr(w.s.terminator._rung_systems[0], "current_max_t", None))
+    return cov, viols
+
+
+def configs(tier, seed, tables=False):
+    """tables=True adds the table-enumeration tasks (only C04's own run uses them; C11/C13/C15/C16 reuse the BFS worlds)"""
     out = []
     if tier == "quick":
         systems = ["g1rf2m4", "lv125m6"]
@@ -176,12 +221,25 @@ def configs(tier, seed):
                                 if c2["T"] != T:
                                     c2["perms"] = {k: tuple(v) + tuple(range(T, c2["T"])) for k, v in perms.items()}
                                 out.append(c2)
+    if not tables:
+        return out
+    # table enumeration on the long single-worker history (see task_tables)
+    import itertools
+    from .c15 import SPACED
+    subsets = list(itertools.combinations(SPACED[:5] if tier == "quick" else SPACED, 3))
+    for typ in ("pasha", "promotion"):
+        for mode in ("min", "max"):
+            if tier == "quick" and typ == "promotion" and mode == "max":
+                continue
+            for i in range(0, len(subsets), 2):
+                out.append(dict(rs="g1rf3m27", mode=mode, brackets=1, per_bracket=False, type=typ, T=9, W=1, perms={}, seed=seed,
+                                use_mra=True, scratch=False, good=[0, 2, 4], subsets=[list(v) for v in subsets[i:i + 2]]))
     return out
 
 
 def run(tier, seed):
     res = Result()
-    cfgs = configs(tier, seed)
+    cfgs = configs(tier, seed, tables=True)
     for cov, viols in pmap(task, cfgs):
         res.cov.merge(cov)
         res.violations.extend(viols)
